@@ -162,6 +162,22 @@ class G:
     def ai_edit(self, **kw):
         return self.edit(self.pick_session(), **kw)
 
+    def ai_edit_two_files(self, path=None, kinds=None, pos=None):
+        """one agent report (one checkpoint) that covers edits to two files"""
+        files = [f for f in self.worktree_files()]
+        if len(files) < 2:
+            return self.ai_edit(path=path, kinds=kinds, pos=pos)
+        who = self.pick_session()
+        a = self.edit(who, path=path, kinds=kinds, pos=pos)
+        pa = sorted(a["files"])[0]
+        others = [f for f in files if f != pa]
+        b = self.edit(who, path=self.rng.choice(others), kinds=kinds or ["insert", "append", "replace", "modify"])
+        a["files"].update(b["files"])
+        a["desc"] = dict(a.get("desc") or {}, second=b.get("desc"))
+        a.pop("dirty", None)
+        self.ex.probe("ai_edit.two_files")
+        return a
+
     def human_edit(self, **kw):
         return self.edit(HUMAN, **kw)
 
@@ -171,7 +187,9 @@ class G:
         batch = ["ai"] * rng.randint(*n_ai) + ["human"] * rng.randint(*n_human)
         rng.shuffle(batch)
         for b in batch:
-            if b == "ai":
+            if b == "ai" and rng.random() < 0.15:
+                yield self.ai_edit_two_files(path=path, pos=pos, kinds=ai_kinds or ["insert", "insert", "replace", "modify", "append"])
+            elif b == "ai":
                 yield self.ai_edit(path=path, pos=pos, kinds=ai_kinds or ["insert", "insert", "replace", "modify", "append"])
             else:
                 yield self.human_edit(path=path, pos=pos, kinds=human_kinds)
@@ -1032,6 +1050,27 @@ def fam_partial_amend(g):
     yield g.git("commit", "-q", "--amend", "--no-edit", check=True, rewrite=True)
 
 
+def fam_two_file_report(g):
+    """one agent report covers two files; afterwards people (and agents) keep editing one file or the other, each
+    edit on its own, before everything is committed"""
+    rng = g.rng
+    files = g.worktree_files()
+    while len(files) < 2:
+        yield g.human_edit(new_file=True)
+        yield from g.commit_all()
+        files = g.worktree_files()
+    yield g.ai_edit_two_files(kinds=["insert", "append", "replace"])
+    last = None
+    for _ in range(rng.randint(2, 4)):
+        f = rng.choice([x for x in files if x != last] or files)
+        last = f
+        if rng.random() < 0.75:
+            yield g.human_edit(path=f, kinds=["insert", "append", "replace", "modify"])
+        else:
+            yield g.ai_edit(path=f, kinds=["insert", "append"])
+    yield from g.commit_all()
+
+
 FAMILIES = {
     "human_overwrites_ai": fam_human_overwrites_ai,
     "destructive": fam_destructive,
@@ -1057,6 +1096,7 @@ FAMILIES = {
     "mv_rm": fam_mv_rm,
     "ci_rewrite": fam_ci_rewrite,
     "partial_amend": fam_partial_amend,
+    "two_file_report": fam_two_file_report,
 }
 
 # families whose outcome no property promises two-sidedly (a reverted-and-restored or renamed line)
